@@ -123,11 +123,21 @@ def checkInside (s : State) (loc : Loc) : E Unit := do
   if !(loc.start ≥ 0) then throw "assertion"
   if !(loc.end ≤ s.len) then throw "assertion"
 
-/-- bisect insert + renumbering, shared shape of add_protocluster / add_candidate_cluster / add_subregion -/
-def insertSorted (l : List Feat) (d : Dict Nat) (x : Feat) : E (List Feat × Dict Nat) := do
-  let index ← bisectLeft (fun y => collectionLt y.loc x.loc) l (l.length + 1) 0 l.length
+/-- bisect insert + renumbering, shared shape of add_protocluster / add_candidate_cluster / add_subregion;
+    `lt y` is the comparison the bisection makes with the element `y` in the middle -/
+def insertSortedWith (lt : Feat → E Bool) (l : List Feat) (d : Dict Nat) (x : Feat) : E (List Feat × Dict Nat) := do
+  let index ← bisectLeft lt l (l.length + 1) 0 l.length
   let l' := insertAt l index x
   pure (l', renumber d l' index)
+
+/-- `bisect.bisect_left(l, x)`: goes right while `l[mid] < x` (add_candidate_cluster) -/
+def insertSorted (l : List Feat) (d : Dict Nat) (x : Feat) : E (List Feat × Dict Nat) :=
+  insertSortedWith (fun y => collectionLt y.loc x.loc) l d x
+
+/-- `bisect.bisect_right(l, x)`: goes right unless `x < l[mid]`, so `x` lands after every element
+    with an equal key (add_protocluster / add_subregion: re-adding areas in file order keeps that order) -/
+def insertSortedRight (l : List Feat) (d : Dict Nat) (x : Feat) : E (List Feat × Dict Nat) :=
+  insertSortedWith (fun y => do pure (!(← collectionLt x.loc y.loc))) l d x
 
 /-! ### construction of collections -/
 
@@ -197,13 +207,13 @@ def mkRegion (s : State) (cands subs : List Feat) : E (State × Feat) := do
 def addProtocluster (s : State) (loc : Loc) : E State := do
   let (s, x) ← mkLeaf s .proto loc
   checkInside s x.loc
-  let (l, d) ← insertSorted s.protos s.numP x
+  let (l, d) ← insertSortedRight s.protos s.numP x
   pure { s with protos := l, numP := d }
 
 def addSubregion (s : State) (loc : Loc) : E State := do
   let (s, x) ← mkLeaf s .sub loc
   checkInside s x.loc
-  let (l, d) ← insertSorted s.subs s.numS x
+  let (l, d) ← insertSortedRight s.subs s.numS x
   pure { s with subs := l, numS := d }
 
 /-- `Record.add_candidate_cluster(c)` for a constructed candidate waiting in the pool -/
